@@ -12,9 +12,14 @@ import HL.Model.Classes
   fuel = number of remaining bytes; pure byte look-aheads are structural recursion on `after`.
   That the fuel is never exhausted is proved in `HL/Lemmas/Lexer.lean` (`*_fuel`), not assumed.
 
-  Every scan function returns `mkTok ty value s e`: the token with `Pos = s.position`,
-  `End = e.position`, and the new lexer state `e` — in lexer.go every token is built from a
+  Every scan function but two returns `mkTok ty value s e`: the token with `Pos = s.position`,
+  `End = e.position`, and the new lexer state `e` — in lexer.go every such token is built from a
   `startPos := l.position()` taken at some state and `End: l.position()` of the final state.
+  `scanAccount` and `scanText` return `mkTokAt ty value s stop e`: their `End` is the position
+  right behind the last character of the lexeme (`stop`), which may lie before the state `e` the
+  lexer is left in (the scan goes on over a single blank behind an account name, and over the
+  white space behind a text, exactly as before the `fix:` commit for trailing blanks in ranges;
+  the old token ends are kept in HL/Model/LexerPinned.lean, `HL.Lex.PinnedTrail`).
 
   Line ends: `atEol` = `(*Lexer).atLineEnd` — a line feed, or a carriage return directly followed
   by a line feed; the loops that run to the end of the line are `advLineF` (they stop there), and
@@ -22,9 +27,9 @@ import HL.Model.Classes
   ordinary byte.  (Before the `fix:` commit for CRLF line ends only LF ended a line: that lexer is
   kept, as far as it differs, in HL/Model/LexerPinned.lean.)
 
-  Transcribed, not repaired: `scanAccount` ends its token (`End`) after trailing single blanks
-  although the value stops at the last non-blank; `scanText` trims the value but not the
-  extent; `scanDirectiveOrAccount` / `scanCommodityOrText` rewind `pos` and `column`.
+  Transcribed, not repaired: `scanDirectiveOrAccount` / `scanCommodityOrText` rewind `pos` and
+  `column`; `scanText` reports the `Pos` where the scan started although its value is trimmed on
+  the left too (only white space other than blank and tab can stand there: `skipSpaces` ran).
 
   Correspondence: op `lex.tokens` (whole token streams: type, value, Pos, End).
 -/
@@ -76,6 +81,10 @@ def between (s e : Z) : Bytes := (e.before.take (e.before.length - s.before.leng
 
 def mkTok (ty : TokType) (val : Bytes) (s e : Z) : Token × Z :=
   (⟨ty, val, s.position, e.position⟩, e)
+
+/-- A token whose `End` is `stop`, a position at or before the state `e` the lexer is left in. -/
+def mkTokAt (ty : TokType) (val : Bytes) (s : Z) (stop : Pos) (e : Z) : Token × Z :=
+  (⟨ty, val, s.position, stop⟩, e)
 
 /-! ### byte classes -/
 @[inline] def isWhitespace (ch : UInt8) : Bool := ch == 0x20 || ch == 0x09 || ch == 0x0A || ch == 0x0D
@@ -332,9 +341,11 @@ def scanAccountF : Nat → Z → Z → Z × Z
       else if isAccountTerminator r then (z, l)
       else scanAccountF n (z.bump size) (z.bump size)
 
+/-- `scanAccount`: value and `End` at the state `l` behind the last rune that is not a blank
+    (`end = l.position()` in the loop); the lexer is left at `e`, possibly one blank further. -/
 def scanAccount (z : Z) : Token × Z :=
   let (e, l) := scanAccountF z.after.length z z
-  mkTok .account (between z l) z e
+  mkTokAt .account (between z l) z l.position e
 
 /-- loop of `scanNumber` with `hasDigits`. -/
 def scanNumberF : Nat → Z → Bool → Z
@@ -375,9 +386,18 @@ def scanEquals (z : Z) : Token × Z :=
 def scanSign (z : Z) : Token × Z :=
   mkTok .sign (encodeRune (peek z).toNat) z (advance z)
 
+/-- `End` of a text token scanned from `z` to `e`: right behind the last character of
+    `lexeme = strings.TrimRightFunc(scanned, unicode.IsSpace)`, on the line of `z`, columns
+    counted with `utf8.RuneCountInString`; where `scanned` is white space only (no lexeme) the
+    token keeps what was scanned. -/
+def textStop (z e : Z) : Pos :=
+  let lexeme := trimRightFunc (between z e)
+  if lexeme = [] then e.position
+  else ⟨z.line, z.col + (runes lexeme).length, z.before.length + lexeme.length⟩
+
 def scanText (z : Z) : Token × Z :=
   let e := advLine (fun ch => !(ch == 0x3B || ch == 0x7C)) z
-  mkTok .text (trimSpace (between z e)) z e
+  mkTokAt .text (trimSpace (between z e)) z (textStop z e) e
 
 def scanDirectiveOrAccount (z : Z) : Token × Z :=
   let z1 := advWhile isLetter z
